@@ -6,3 +6,8 @@ void prop_c03(hz::Ctx &);
 void prop_c04(hz::Ctx &);
 void prop_c05(hz::Ctx &);
 int replay_line(const std::string &prop, const std::string &caseid);
+void prop_c10(hz::Ctx &);
+int replay_reject(const std::string &caseid);
+void prop_c11(hz::Ctx &);
+void prop_c16(hz::Ctx &);
+int replay_modes(const std::string &prop, const std::string &caseid);
